@@ -23,6 +23,7 @@ CONFIGS = [("none", False, False), ("sgio", True, False), ("iscsi", False, True)
 VERSIONS = ["1.1.2", "1.1.10", "1.2.0", "10.0.1", "1.1.19", "2.0"]  # what a binding's package metadata may say
 
 
+HOSTNAMES = ["x" * 64, "rack12..example", "b\u00fccher-host", "node_01.example", "-edge-.example.", "a" * 63 + "." + "b" * 63 + "." + "c" * 63 + "." + "d" * 59, "UPPER.Example.COM", "localhost"]
 INITIATOR_NAMES = ["naa.62004567BA64678D0123456789ABCDEF", "naa.52004567BA64678D", "naa.6001405a1b2c3d4e5f60718293a4b5c6", "NAA.52004567ba64678d", "eui.02004567A425678D",
                    "eui.acde48234667abcd", "EUI.02004567A425678D", "iqn.2001-04.com.example:storage:diskarrays-sn-a8675309", "iqn.2001-04.com.example",
                    "iqn.1993-08.org.debian:01:6e4ac0c1a2b3", "iqn.2001-04.de.b\u00fccher:host-a", "iqn.1991-05.com.microsoft:win-host.corp.example.com",
@@ -38,6 +39,8 @@ def shards(tier, seed):
             for k, (n, s, i) in enumerate(CONFIGS) if n in ("none", "both")]
     # both bindings installed, once per release string of their package metadata
     out += [{"id": "both-v" + v, "sgio": True, "iscsi": True, "n": 2, "version": v} for v in VERSIONS]
+    # ... and on machines with unusual host names
+    out += [{"id": "host-%d" % i, "sgio": True, "iscsi": bool(i % 2 == 0), "n": 2, "version": VERSIONS[i % len(VERSIONS)], "hostname": h} for i, h in enumerate(HOSTNAMES)]
     return out
 
 
@@ -117,6 +120,12 @@ def run(shard, ctx):
         ctx.inconclusive_because("pyscsi device modules were imported before the configuration was set up")
         return
     cfg = shard["id"]
+    if shard.get("hostname") is not None:
+        # the machine's host name is part of the environment (it ends up in the default initiator name): any name the system
+        # allows -- a 64-character label, empty labels, characters outside ASCII, underscores
+        name = shard["hostname"]
+        socket.gethostname = lambda: name
+        ctx.count("configurations_with_unusual_host_names")
     if shard.get("built") and not use_built_copy(ctx, zipped=shard.get("built") == "zip"):
         return
     binding_metadata(shard)
@@ -280,7 +289,19 @@ def run(shard, ctx):
         def execute(self, cmd, en_raw_sense=False, timeout=30, retries=0):
             self.n += 1
 
-    for kind in (Plain, LogList, Unconnected, Sized, EqualsAnything, Slotted, KeywordOnly, Forwarding, ExtraOptions):
+    class ClosesTrue(Plain):
+        def close(self):
+            return True
+
+    class ClosesSelf(Plain):
+        def close(self):
+            return self
+
+    class ClosesCount(Plain):
+        def close(self):
+            return 1
+
+    for kind in (Plain, LogList, Unconnected, Sized, EqualsAnything, Slotted, KeywordOnly, Forwarding, ExtraOptions, ClosesTrue, ClosesSelf, ClosesCount):
         for reattach in (False, True):
             wit = {"configuration": cfg, "device_object": kind.__name__, "attached_by": "s(dev)" if reattach else "SCSI(dev)"}
             ctx.case((cfg, "facade-plain", kind.__name__, reattach), True)
@@ -296,6 +317,14 @@ def run(shard, ctx):
                 s.inquiry(evpd=1, page_code=0x80)
                 with s:
                     pass
+                # an exception raised inside the with block reaches the caller, whatever the device's close() returns
+                try:
+                    with s:
+                        raise LookupError("raised inside the with block")
+                except LookupError:
+                    pass
+                else:
+                    ctx.fail("C19:%s.facade_plain_device" % cfg, "facade over a plain device object (%s): an exception raised inside `with SCSI(dev)` did not reach the caller" % kind.__name__, wit)
                 if p.n != 4 or p.opcodes is not E.sbc or getattr(p, "devicetype", None) != 0:
                     ctx.fail("C19:%s.facade_plain_device" % cfg, "facade over a plain device object (%s): %d commands reached it (1 INQUIRY + 3 expected), command set %r, devicetype %r"
                              % (kind.__name__, p.n, p.opcodes, getattr(p, "devicetype", None)), wit)
@@ -312,6 +341,11 @@ def run(shard, ctx):
     os.makedirs(os.path.join(devnode.base(), "disk", "by-id"), exist_ok=True)
     more_nodes = [devnode.new_node(n) for n in ("sg12", "sda", "sdb1", "st0", "nst0", "sr0", "sr1", "scd0", "cdrom", "cdrw", "dvd", "nvme0n1", "bsg-0:0:0:0")]
     more_nodes.append(devnode.new_node(os.path.join("disk", "by-id", "wwn-0x5000c500a1b2c3d4"), link=True))
+    # a udev link resolved by hand (dirname(link) + readlink(link)): '..' components that stay inside the device directory
+    more_nodes.append(os.path.join(devnode.base(), "disk", "by-id", "..", "..", "sda"))
+    more_nodes.append(os.path.join(devnode.base(), "disk", "..", "sr0"))
+    more_nodes.append(os.path.join(devnode.base(), ".", "st0"))
+    more_nodes.append(devnode.base() + os.sep + os.sep + "sdb1")
     strings = [node, missing] + more_nodes + [
                "iscsi://user%secret@192.0.2.7:3260/iqn.2003-01.org.example:t/1", "iscsi://user@192.0.2.7/iqn.2003-01.org.example:t/2",
                "iscsi://[2001:db8::7]:3260/iqn.2003-01.org.example:t/0", "iscsi://chap%pass%word@h:1/iqn.x:y/255", "/dev", "/devx/sg0", "dev/sg0", " /dev/sg0", "/DEV/sg0", "iscsi://192.0.2.7:3260/iqn.2003-01.org.example:t/0",
@@ -498,7 +532,7 @@ def run(shard, ctx):
 
 def finalize(merged, tier):
     c = merged["counters"]
-    if merged["shards"] not in (14, 28):  # 4 configurations from the source tree, 2 from a built copy, 6 binding releases; each also in the -O -W error interpreter
+    if merged["shards"] not in (14 + len(HOSTNAMES), 2 * (14 + len(HOSTNAMES))):  # 4 configurations from the source tree, 2 from a built copy, 6 binding releases; each also in the -O -W error interpreter
         merged["inconclusive"].append("not all 4 configurations ran")
     for k in ("modules_imported", "commands_built", "device_string_cases", "facade_plain_ok"):
         if c.get(k, 0) == 0:
